@@ -18,3 +18,70 @@ Theorem C15_key_hashable_partial : forall fp v k,
   to_hashable fp v = Ok k -> py_hashable k = true.
 Proof. exact key_hashable. Qed.
 Print Assumptions C15_key_hashable_partial.
+
+Example C15_key_hashable_nontrivial :   (* {2: [1], 1: (5, {3})} satisfies the hypotheses *)
+  let v := PDict [(PInt 2, PList [PInt 1]); (PInt 1, PTuple [PInt 5; PSet [PInt 3]])] in
+  wf v = true /\ unmasked v = true /\ no_pandas v = true /\ exists k, to_hashable true v = Ok k.
+Proof. repeat split; try (vm_compute; reflexivity). eexists. vm_compute. reflexivity. Qed.
+
+(* ---- eq_implies_key_eq: equal values of the same type get equal keys (canonicity of sorted()).
+   Full statement:  forall fp v w k k', supported v = true -> supported w = true -> py_same v w = true ->
+                    to_hashable fp v = Ok k -> to_hashable fp w = Ok k' -> py_eq k k' = true.
+   FALSE: frozenset keys are only partially ordered by < (known finding sorted-partial-order-frozenset-keys),
+   Counter equality ignores zero counts (known finding counter-zero-count-distinct-keys): *)
+Theorem C15_eq_implies_key_eq_refuted_partial_order :
+  exists v w k k', supported v = true /\ supported w = true /\ py_same v w = true
+                   /\ to_hashable true v = Ok k /\ to_hashable true w = Ok k' /\ py_eq k k' = false.
+Proof. exact eq_implies_key_eq_refuted_partial_order. Qed.
+Print Assumptions C15_eq_implies_key_eq_refuted_partial_order.
+Theorem C15_eq_implies_key_eq_refuted_counter :
+  exists v w k k', supported v = true /\ supported w = true /\ py_same v w = true
+                   /\ to_hashable true v = Ok k /\ to_hashable true w = Ok k' /\ py_eq k k' = false.
+Proof. exact eq_implies_key_eq_refuted_counter. Qed.
+Print Assumptions C15_eq_implies_key_eq_refuted_counter.
+
+(* proved when everything that gets sorted consists of scalars of one comparable class (numbers | str | bytes),
+   no Counter holds a zero count, no pandas values.  py_same compares leaves with Python's == (1 == True == 1.0);
+   py_eq is Python's == on the keys. *)
+Theorem C15_eq_implies_key_eq_partial : forall fp v w k k',
+  wf v = true -> wf w = true -> homogeneous_sortable v = true -> homogeneous_sortable w = true ->
+  no_pandas v = true -> no_pandas w = true -> no_zero_count v = true -> no_zero_count w = true ->
+  py_same v w = true -> to_hashable fp v = Ok k -> to_hashable fp w = Ok k' -> py_eq k k' = true.
+Proof. exact eq_implies_key_eq. Qed.
+Print Assumptions C15_eq_implies_key_eq_partial.
+
+Example C15_eq_implies_key_eq_nontrivial :   (* {1: [{'b', 'a'}], 2.5: ()} vs {2.5: (), True: [{'a', 'b'}]} *)
+  let v := PDict [(PInt 1, PList [PSet [PStr (s "b"); PStr (s "a")]]); (PFloat 10, PTuple [])] in
+  let w := PDict [(PFloat 10, PTuple []); (PBool true, PList [PSet [PStr (s "a"); PStr (s "b")]])] in
+  wf v = true /\ wf w = true /\ homogeneous_sortable v = true /\ homogeneous_sortable w = true
+  /\ no_pandas v = true /\ no_pandas w = true /\ no_zero_count v = true /\ no_zero_count w = true
+  /\ py_same v w = true /\ v <> w.
+Proof. repeat split; try (vm_compute; reflexivity). discriminate. Qed.
+
+(* ---- total_on_supported: a key is returned.
+   Full statement:  forall fp v, supported v = true -> convertible fp v = true -> exists k, to_hashable fp v = Ok k.
+   FALSE: sorted() raises TypeError on mutually incomparable set elements / dict keys
+   (known finding sorted-typeerror-incomparable-keys): *)
+Theorem C15_total_on_supported_refuted :
+  exists v, supported v = true /\ convertible true v = true /\ to_hashable true v = Err TypeError.
+Proof. exact total_refuted. Qed.
+Print Assumptions C15_total_on_supported_refuted.
+
+Theorem C15_total_on_supported_partial : forall fp v,
+  wf v = true -> homogeneous_sortable v = true -> no_pandas v = true -> convertible fp v = true ->
+  exists k, to_hashable fp v = Ok k.
+Proof. exact total_on_supported. Qed.
+Print Assumptions C15_total_on_supported_partial.
+
+(* ---- key_eq_implies_eq (injectivity): equal keys only for equal values of the same type.
+   FALSE for pandas Series / DataFrames (known finding pandas-key-loses-index-dtype-order): *)
+Theorem C15_key_eq_implies_eq_refuted_series :
+  exists v w k k', supported v = true /\ supported w = true /\ py_same v w = false
+                   /\ to_hashable true v = Ok k /\ to_hashable true w = Ok k' /\ py_eq k k' = true.
+Proof. exact key_eq_implies_eq_refuted_series. Qed.
+Print Assumptions C15_key_eq_implies_eq_refuted_series.
+Theorem C15_key_eq_implies_eq_refuted_frame :
+  exists v w k k', supported v = true /\ supported w = true /\ py_same v w = false
+                   /\ to_hashable true v = Ok k /\ to_hashable true w = Ok k' /\ py_eq k k' = true.
+Proof. exact key_eq_implies_eq_refuted_frame. Qed.
+Print Assumptions C15_key_eq_implies_eq_refuted_frame.
